@@ -29,7 +29,15 @@ func (t TDist) CDF(x float64) float64 {
 	if x == 0 {
 		return 0.5
 	} else if x > 0 {
-		return 1 - 0.5*mathx.BetaInc(t.V/(t.V+x*x), t.V/2, 0.5)
+		x2 := x * x
+		if x2 < t.V {
+			// Near the center V/(V+x²) rounds to
+			// nearly 1 and loses x. Use the
+			// complementary form of the incomplete
+			// beta function instead.
+			return 0.5 + 0.5*mathx.BetaInc(x2/(t.V+x2), 0.5, t.V/2)
+		}
+		return 1 - 0.5*mathx.BetaInc(t.V/(t.V+x2), t.V/2, 0.5)
 	} else if x < 0 {
 		return 1 - t.CDF(-x)
 	} else {
